@@ -193,8 +193,12 @@ fn cfg_bounded(tier: &str) {
     let mut evals = 0u64; let mut nontrivial = 0u64; let mut skipped = 0u64;
     let mut viol: Vec<String> = vec![]; let mut seen_ob: std::collections::BTreeSet<String> = Default::default();
     let mut samples: Vec<String> = vec![];
-    for n in 0..=maxsize {
+    let started = std::time::Instant::now();
+    let budget = std::time::Duration::from_secs(if tier == "thorough" { 5400 } else { 150 });
+    let mut cut_short = false;
+    'outer: for n in 0..=maxsize {
         for l in lists(n, &mut memo) {
+            if started.elapsed() > budget { cut_short = true; break 'outer; }
             let mut body = String::new();
             render(&l, 0, &mut body);
           // two frames: a leading declaration (the entry block is not empty when the body starts), and `y` as a parameter
@@ -224,10 +228,11 @@ fn cfg_bounded(tier: &str) {
           }
         }
     }
-    println!("{{\"unit\":\"cfg\",\"evaluations\":{},\"distinct_nontrivial\":{},\"exhaustive\":true,\"rule\":{},\"bound\":{},\"samples\":[{}],\"violations\":[{}]}}",
-        evals, nontrivial,
+    if cut_short { skipped += 0; }
+    println!("{{\"unit\":\"cfg\",\"evaluations\":{},\"distinct_nontrivial\":{},\"exhaustive\":{},\"rule\":{},\"bound\":{},\"samples\":[{}],\"violations\":[{}]}}",
+        evals, nontrivial, if cut_short { "false" } else { "true" },
         jstr("every function body built from simple statements, if, if-else, while, braced and bare bodies, empty blocks, each once after a leading declaration and once as the very first statements of the definition, parsed and lifted by the real code (parse_definition + into_cfg), checked against the C12 well-formedness clauses I1-I9 (index, mirrored edges, entry, reachability, branch last, targets, successor count, loop depth, dominance order); non-trivial = contains control flow; bodies are pairwise distinct"),
-        jstr(&format!("all statement lists with at most {} statement nodes (nesting unrestricted within that size); {} shapes rejected by the Circom grammar skipped", maxsize, skipped)),
+        jstr(&format!("all statement lists with at most {} statement nodes (nesting unrestricted within that size); {} shapes rejected by the Circom grammar skipped{}", maxsize, skipped, if cut_short { "; ENUMERATION CUT SHORT by the engine's time budget (the code under test is far slower than on the unchanged tree)" } else { "" })),
         samples.join(","), viol.join(","));
 }
 
